@@ -9,6 +9,7 @@ BRANCH(c,t,e) = if, REPEAT(c, body) = while - library lemma, T-RZIL) plus bit-ve
 for the assignment operators.  List lengths are unbounded (fold invariants) where noted.
 """
 from __future__ import annotations
+import re
 import z3
 from lark import Token, Tree
 
@@ -328,6 +329,11 @@ def gen_effect_emission(loader, check, replay_on=True):
                     cv = rzil.Evaluator().ev(term[2][0])
                     want = c.ghost["den"] if c.ghost["sort"] == "bool" else (c.ghost["den"] != 0)
                     check.ob(f"{name}#condition-is-C-truth-of-cond", pi, p.ctx.pc, cv.v == want, replay=rp, detail=t.render())
+                    # linearity: the condition is read exactly once and that text is embedded exactly once; each arm is referenced once
+                    reads = [(a.tag, a.ordinal) for a in t.atoms() if a.kind == "read"]
+                    rpl = ("c05.cond_once", lambda mdl, ck=ck, what=what: {"what": what, "cond_kind": ck}) if replay_on else None
+                    check.ob(f"{name}#atom-linearity", pi, p.ctx.pc, c.ghost.get("nreads", 0) == 1 and reads == [("c", 1)], replay=rpl,
+                             detail=f"condition il_read() x{c.ghost.get('nreads', 0)}, embedded: {reads}")
                     if what == "Branch":
                         arms = [a[1].tag if a[0] == "atom" else None for a in term[2][1:]]
                         check.ob("Branch.il_write#then-arm-first-else-arm-second", pi, p.ctx.pc, arms == ["then", "else"], replay=rp, detail=str(arms))
@@ -402,14 +408,23 @@ def gen_stmt_callbacks(loader, check, replay_on=True):
     Seq, Br, Fl, Emp = (irkit.C(loader, n) for n in ("Sequence", "Branch", "ForLoop", "Empty"))
 
     def is_seq_of(o, effs):
-        return isinstance(o, Obj) and o.cls is Seq and len(o.fields["effects"]) == len(effs) and all(a is b for a, b in zip(o.fields["effects"], effs))
+        # Sequence drops empty statements; a sequence of nothing is one fresh EMPTY
+        effs = [e for e in effs if not (isinstance(e, Obj) and e.cls is Emp)]
+        if not (isinstance(o, Obj) and o.cls is Seq):
+            return False
+        if not effs:
+            got = o.fields["effects"]
+            return len(got) == 1 and isinstance(got[0], Obj) and got[0].cls is Emp
+        return len(o.fields["effects"]) == len(effs) and all(a is b for a, b in zip(o.fields["effects"], effs))
 
     # ---- if / if-else / switch ---------------------------------------------------------------------
     cond_cases = [("Variable", t_) for t_ in T8] + [("Register", (True, 64)), ("CompareOp", (True, 32)), ("Cast", (False, 64)), ("HybridTmp", (True, 64))]
     for form in ("if", "if-else", "switch"):
       for ck, ct in (cond_cases if form != "switch" else cond_cases[:1]):
-        for nthen in (1, 2, "nested-block"):
-            if nthen == "nested-block" and (form == "switch" or (ck, ct) != cond_cases[4]):
+        for nthen in (1, 2, "nested-block", "empty-block", "empty-else"):
+            if nthen in ("nested-block", "empty-block", "empty-else") and (form == "switch" or (ck, ct) not in (cond_cases[4], cond_cases[-3])):
+                continue
+            if nthen == "empty-else" and form != "if-else":
                 continue
             inst = f"{form} cond={ck}:{tname(ct)} then-statements={nthen}"
             check.instances_declared += 1
@@ -418,11 +433,15 @@ def gen_stmt_callbacks(loader, check, replay_on=True):
                 t = tkit.mk_transformer(it)
                 c = irkit.mk_operand(it, ck, ct, "c")
                 nested = nthen == "nested-block"
-                then = [mk_effect(it, loader, "Assignment", f"t{i}") for i in range(3 if nested else nthen)]
-                els = [mk_effect(it, loader, "Assignment", "e0"), mk_effect(it, loader, "NOP", "e1")]
+                if nthen == "empty-block":
+                    # if (c) {} [else ...]: the then statement is the EMPTY effect an empty block yields
+                    then = [mk_effect(it, loader, "Empty", "t0")]
+                else:
+                    then = [mk_effect(it, loader, "Assignment", f"t{i}") for i in range(3 if nested else (1 if nthen == "empty-else" else nthen))]
+                els = [mk_effect(it, loader, "Empty", "e0")] if nthen == "empty-else" else [mk_effect(it, loader, "Assignment", "e0"), mk_effect(it, loader, "NOP", "e1")]
                 # a block whose second item is itself a block: { t0; { t1; t2; } } arrives as a nested list
-                then_item = [then[0], [then[1], then[2]]] if nested else (then if nthen > 1 else then[0])
-                els_item = [[els[0]], [els[1]]] if nested else els
+                then_item = [then[0], [then[1], then[2]]] if nested else (then if len(then) > 1 else then[0])
+                els_item = [[els[0]], [els[1]]] if nested else (els if len(els) > 1 else els[0])
                 if form == "if":
                     items = [Token("IF", "if"), c, then_item]
                 elif form == "if-else":
@@ -461,11 +480,12 @@ def gen_stmt_callbacks(loader, check, replay_on=True):
                 rpc = ("c05.if_cond", lambda mdl, ck=ck, ct=ct: {"kind": ck, "ct": list(ct), "c": mdl.get("c", 0)}) if replay_on else None
                 check.ob("selection_stmt#then-arm-taken-iff-the-condition-is-non-zero", pi, p.ctx.pc, (got_t == want_t) if got_t is not None else False,
                          replay=rpc, detail=ok_c or "")
-                check.ob("selection_stmt#then-arm-is-the-then-statements-in-order", pi, p.ctx.pc, is_seq_of(b.fields["then"], st["then"]))
+                rpa = ("c05.if_arms", lambda mdl, form=form, nthen=nthen: {"form": form, "shape": str(nthen)}) if replay_on else None
+                check.ob("selection_stmt#then-arm-is-the-then-statements-in-order", pi, p.ctx.pc, is_seq_of(b.fields["then"], st["then"]), replay=rpa)
                 if form == "if":
-                    check.ob("selection_stmt#no-else-means-EMPTY", pi, p.ctx.pc, isinstance(b.fields["otherwise"], Obj) and b.fields["otherwise"].cls is Emp)
+                    check.ob("selection_stmt#no-else-means-EMPTY", pi, p.ctx.pc, isinstance(b.fields["otherwise"], Obj) and b.fields["otherwise"].cls is Emp, replay=rpa)
                 else:
-                    check.ob("selection_stmt#else-arm-is-the-else-statements-in-order", pi, p.ctx.pc, is_seq_of(b.fields["otherwise"], st["els"]))
+                    check.ob("selection_stmt#else-arm-is-the-else-statements-in-order", pi, p.ctx.pc, is_seq_of(b.fields["otherwise"], st["els"]), replay=rpa)
 
     # ---- for / while / do --------------------------------------------------------------------------------
     for nbody in (0, 1, 2):
@@ -929,6 +949,62 @@ def replay_if_cond(a):
     got = z3.is_true(z3.simplify(z3.substitute(d, *subs)))
     want = bool(v)
     return got != want, f"if (c) with c:{tname(ct)} = {int(v):#x}: branch condition {br.cond} is {got}, C truth {want}"
+
+
+@replay.register("c05.if_arms")
+def replay_if_arms(a):
+    """real selection_stmt on real statements: the then arm holds the (non-empty) then statements in order, the else arm the else statements
+    (a fresh EMPTY when there are none)"""
+    from rzilcompiler.Transformer.RZILTransformer import RZILTransformer
+    from rzilcompiler.Transformer.Effects.NOP import NOP
+    from rzilcompiler.Transformer.Effects.Empty import Empty
+    from rzilcompiler.Transformer.Effects.Sequence import Sequence
+    from rzilcompiler.ArchEnum import ArchEnum
+    t = RZILTransformer(ArchEnum.HEXAGON)
+    c = _real_operand("Variable", (True, 32), "c")
+    shape = a["shape"]
+    then = [Empty("t0")] if shape == "empty-block" else [NOP(f"t{i}") for i in range({"1": 1, "2": 2, "nested-block": 3}.get(shape, 1))]
+    els = [Empty("e0")] if shape == "empty-else" else [NOP("e0"), NOP("e1")]
+    then_item = [then[0], [then[1], then[2]]] if shape == "nested-block" else (then if len(then) > 1 else then[0])
+    els_item = [[els[0]], [els[1]]] if shape == "nested-block" else (els if len(els) > 1 else els[0])
+    items = [Token("IF", "if"), c, then_item] + ([Token("ELSE", "else"), els_item] if a["form"] == "if-else" else [])
+    br = t.selection_stmt(items)
+
+    def arm_ok(o, effs):
+        effs = [e for e in effs if not isinstance(e, Empty)]
+        if not isinstance(o, Sequence):
+            return not effs and isinstance(o, Empty)
+        if not effs:
+            return len(o.effects) == 1 and isinstance(o.effects[0], Empty)
+        return len(o.effects) == len(effs) and all(x is y for x, y in zip(o.effects, effs))
+    ok_then = arm_ok(br.then, then)
+    ok_else = arm_ok(br.otherwise, els if a["form"] == "if-else" else [])
+    return not (ok_then and ok_else), (f"{a['form']} with then-statements {[str(x) for x in then]} / else-statements {[str(x) for x in els] if a['form'] == 'if-else' else []}: "
+                                       f"branch then-arm {br.then}, else-arm {br.otherwise}")
+
+
+@replay.register("c05.cond_once")
+def replay_cond_once(a):
+    """the condition of a real Branch / ForLoop is a register (bit vector conditions) or a declared comparison (boolean ones) that nobody
+    has consumed yet: the emitted text must hold its variable raw exactly once and never as DUP"""
+    from rzilcompiler.Transformer.Effects.Branch import Branch
+    from rzilcompiler.Transformer.Effects.ForLoop import ForLoop
+    from rzilcompiler.Transformer.Effects.NOP import NOP
+    from rzilcompiler.Transformer.Pures.Register import Register, RegisterAccessType
+    from rzilcompiler.Transformer.Pures.CompareOp import CompareOp, CompareOpType
+    from rzilcompiler.Transformer.Pures.Variable import Variable
+    from rzilcompiler.Transformer.ValueType import ValueType
+    if a["cond_kind"] in ("CompareOp", "BooleanOp", "Bool"):
+        c = CompareOp("op_LT_1", Variable("a", ValueType(True, 32)), Variable("b", ValueType(True, 32)), CompareOpType("<"))
+        var = c.pure_var()
+    else:
+        c = Register("Rs", RegisterAccessType.R, ValueType(True, 32))
+        var = c.pure_var()
+    n = Branch("b", c, NOP("t"), NOP("e")) if a["what"] == "Branch" else ForLoop("f", c, NOP("t"))
+    txt = n.il_write()
+    dups = len(re.findall(r"DUP\(" + re.escape(var) + r"\)", txt))
+    raw = len(re.findall(r"(?<![A-Za-z0-9_])" + re.escape(var) + r"(?![A-Za-z0-9_])", txt)) - dups
+    return not (raw == 1 and dups == 0), f"{a['what']}.il_write() with the unconsumed condition {var} = {txt}: {raw} raw use(s), {dups} DUP(s)"
 
 
 @replay.register("c05.effect_text")
